@@ -14,7 +14,7 @@ RULE = (
 )
 BOUNDS = {
     "quick": "every name-terminating punctuation character (23) directly after each of 9 reference forms, followed by text and by another reference; all well-formed chunk sequences of length <=3 over 10 text chunks + 9 references; 2 files x plain, 1 file x onmatch/once for templates of length <=2",
-    "thorough": "all well-formed chunk sequences of length <=4 over 10 text chunks + 6 references, length <=3 over 13 references, length 5 over 4 text chunks + 4 references; 3 files x 6 forms (length >=4: one file, plain form)",
+    "thorough": "all well-formed chunk sequences of length <=4 over 10 text chunks + 6 references, length <=3 over 13 references, length 5 over 4 text chunks + 4 references, length <=4 over 5 text chunks + 13 references; 3 files x 6 forms (length >=4: one file, plain form)",
 }
 CHUNK = 250
 BUDGET = {"quick": 600, "thorough": 3400}
@@ -86,7 +86,7 @@ def cases(tier, seed):
                 yield {"t": t, "file": 1, "form": "nodefault"}
     else:
         seen = set()
-        for t in itertools.chain(templates(4, REFS6), templates(3, REFS12), templates(5, REFS6[:4], texts=[" ", "..", "a.b ", ": "])):
+        for t in itertools.chain(templates(4, REFS6), templates(3, REFS12), templates(5, REFS6[:4], texts=[" ", "..", "a.b ", ": "]), templates(4, REFS12, texts=[" ", "..", ",", "x y", ")/"])):
             k = repr(t)
             if k in seen:
                 continue
